@@ -178,6 +178,15 @@ func WireFileSource(w *spec.WCase, f *spec.WFile) string {
 		if in.Err {
 			res = "(" + res + ", error)"
 		}
+		if in.Panic {
+			// the idiom of the wire documentation: panic(wire.Build(...)), no return statement
+			fmt.Fprintf(&body, "func %s(%s) %s {\n\tpanic(wire.Build(\n", in.Name, strings.Join(ps, ", "), res)
+			for j := range in.Elems {
+				fmt.Fprintf(&body, "\t\t%s,\n", wireElem(w, &in.Elems[j]))
+			}
+			body.WriteString("\t))\n}\n\n")
+			continue
+		}
 		fmt.Fprintf(&body, "func %s(%s) %s {\n\twire.Build(\n", in.Name, strings.Join(ps, ", "), res)
 		for j := range in.Elems {
 			fmt.Fprintf(&body, "\t\t%s,\n", wireElem(w, &in.Elems[j]))
